@@ -86,5 +86,91 @@ def c01 (sameUnit : Bool) (to u' : Nat) (s1 s2 : Rat) (a : Option Rat) (sameAmt 
           check (ratAbs (y * s2 - a * s1) ≤ convBound M s1 s2 a)
             "magnitude not preserved within the rounding bound"
 
+
+/-- C03: `a ± b` with `a = x·unit i`, `b = y·unit j` observed as `(u', z)`;
+`s1`, `s2` the scales of units `i`, `j`. -/
+def c03addsub (isSub : Bool) (i j u' : Nat) (s1 s2 : Rat) (x y : Option Rat) (sameAsOwn : Bool)
+    (z : Option Rat) : Verdict :=
+  (check (u' = i) "result is not expressed in the left operand's unit").and <|
+  if i = j then check sameAsOwn "same-unit result differs from the amount type's own operator"
+  else match x, y with
+    | some x, some y =>
+      let ρ := s2 / s1
+      let cb := convBoundIn M s2 s1 y
+      let yMax := ratAbs ρ * ratAbs y + cb
+      if !(convSafe M s2 s1 y && M.safe (ratAbs x + yMax + M.Ea (ratAbs x + yMax))) then .skip "out of range"
+      else match z with
+        | none => .fail "finite in-range operands gave a non-finite result"
+        | some z =>
+          let exact := if isSub then x * s1 - y * s2 else x * s1 + y * s2
+          check (ratAbs (z * s1 - exact) ≤ ratAbs s1 * (M.Ea (ratAbs x + yMax) + cb))
+            "magnitude of the sum/difference outside the rounding bound"
+    | _, _ => .skip "non-finite amount"
+
+/-- C03: `a / b` observed as the amount `z`. -/
+def c03div (i j : Nat) (s1 s2 : Rat) (x y : Option Rat) (sameAsOwn : Bool) (z : Option Rat) : Verdict :=
+  if i = j then check sameAsOwn "same-unit quotient differs from the amount type's own operator"
+  else match x, y with
+    | some x, some y =>
+      let ρ := s2 / s1
+      let t := ρ * y
+      let cb := convBoundIn M s2 s1 y
+      if t = 0 then .skip "zero divisor"
+      else if !(convSafe M s2 s1 y) then .skip "out of range"
+      else if cb ≥ ratAbs t then .skip "divisor within rounding error of zero"
+      else
+        let lo := ratAbs t - cb
+        if !(M.safe (ratAbs x / lo + M.E (ratAbs x / lo))) then .skip "out of range"
+        else match z with
+          | none => .fail "finite in-range operands gave a non-finite ratio"
+          | some z =>
+            check (ratAbs (z - x / t) ≤ ratAbs x * cb / (lo * ratAbs t) + M.E (ratAbs x / lo))
+              "ratio of magnitudes outside the rounding bound"
+    | _, _ => .skip "non-finite amount"
+
+/-- what the six comparison operators and `partial_cmp` returned -/
+structure CmpObs where
+  eq : Bool
+  ne : Bool
+  lt : Bool
+  le : Bool
+  gt : Bool
+  ge : Bool
+  pc : Option Ordering
+  deriving DecidableEq, Repr, Inhabited
+
+def CmpObs.ofPcmp (e : Bool) (p : Option Ordering) : CmpObs :=
+  { eq := e, ne := !e, lt := p == some .lt, le := p == some .lt || p == some .eq,
+    gt := p == some .gt, ge := p == some .gt || p == some .eq, pc := p }
+
+/-- the operators are derived from `eq` / `partial_cmp` as Rust derives them, and
+`partial_cmp` reports `Equal` exactly when `==` holds -/
+def CmpObs.consistent (o : CmpObs) : Bool :=
+  o == CmpObs.ofPcmp o.eq o.pc && (o.eq == (o.pc == some .eq))
+
+def flipOrd : Option Ordering → Option Ordering
+  | some .lt => some .gt
+  | some .gt => some .lt
+  | o => o
+
+/-- C02, one operand order: `a = x·unit i` (magnitude `mx`), `b = y·unit j` (magnitude `my`);
+`own` = the amount type's own comparison of the two amounts; `margin` = error bound of
+converting `b` into `a`'s unit (as a magnitude). -/
+def c02one (sameUnit : Bool) (own obs : CmpObs) (mx my : Option Rat) (margin : Option Rat) : Verdict :=
+  (check obs.consistent "operators inconsistent with ==/partial_cmp").and <|
+  if sameUnit then check (obs == own) "same-unit comparison differs from the amount type's own"
+  else match mx, my, margin with
+    | some mx, some my, some mg =>
+      if ratAbs (mx - my) > mg then
+        check (obs.pc == some (ratCmp mx my) && obs.eq == false)
+          "comparison contradicts the exact order of the physical magnitudes"
+      else .ok
+    | _, _, _ => .skip "non-finite or out of range"
+
+/-- C02: answers do not depend on operand order (non-NaN amounts) -/
+def c02symm (ab ba : CmpObs) : Verdict :=
+  check (ab.eq == ba.eq && ab.lt == ba.gt && ab.gt == ba.lt && ab.le == ba.ge && ab.ge == ba.le
+    && ab.pc == flipOrd ba.pc) "answers depend on operand order"
+
 end Oracle
 end Qty
